@@ -2146,7 +2146,29 @@ pub fn ensure_reporter_api(cancelable: bool) {
     *g = Some(cancelable);
 }
 
+/// the process-wide ThreadId counter, read by spawning a probe thread
+fn thread_id_probe() -> u64 {
+    std::thread::spawn(|| {
+        let s = format!("{:?}", std::thread::current().id());
+        s.trim_start_matches("ThreadId(").trim_end_matches(')').parse::<u64>().unwrap_or(0)
+    })
+    .join()
+    .unwrap_or(0)
+}
+
 pub fn run_case(prog: &Program, opts: &ExecOpts) -> Hist {
+    let probe0 = if opts.disabled { thread_id_probe() } else { 0 };
+    let mut h = run_case_inner(prog, opts);
+    if opts.disabled {
+        let probe1 = thread_id_probe();
+        // ids handed out between the two probes (the second probe itself excluded)
+        h.thread_ids_used = probe1.saturating_sub(probe0).saturating_sub(1);
+        h.threads_spawned_by_harness = prog.threads.len() as u64 + 2;
+    }
+    h
+}
+
+fn run_case_inner(prog: &Program, opts: &ExecOpts) -> Hist {
     let case_no = CASE_NO.fetch_add(1, Ordering::SeqCst);
     let n = prog.threads.len();
     let reaper = n;
